@@ -104,6 +104,8 @@ def validate_events_generic(module, cfg, rep, events, describe):
                 raise common.ToolError(f"{module} failed without reject index:\n" + res["out"][-2500:])
             what, scenario, observed = describe(rest_idx[fu - 1])
             rep.violation(what, scenario, expected=module + ".tla", observed=observed)
+            if rep.n >= 40:            # enough has been reported: the rest of the trace is not searched for further rejections
+                break
             rest, rest_idx = rest[fu:], rest_idx[fu:]
             if not rest:
                 break
